@@ -22,6 +22,7 @@ macro_rules! harness {
         #[kani::stub(shuttle_engine::seed_from_env, $crate::stubs::seed_from_env)]
         #[kani::stub(alloc::fmt::format, $crate::stubs::fmt_format)]
         #[kani::stub(std::thread::panicking, $crate::stubs::thread_panicking)]
+        #[kani::stub(core::fmt::write, $crate::stubs::fmt_write_noop)]
         #[kani::stub(std::io::_eprint, $crate::stubs::io_print_noop)]
         #[kani::stub(std::io::_print, $crate::stubs::io_print_noop)]
         #[kani::stub(std::sync::Mutex::lock, $crate::stubs::std_mutex_lock)]
